@@ -28,7 +28,7 @@ RULES = {
                  "under shuttle schedules, plus Miri seeds; evaluations = schedules executed",
 }
 ASSUME = [
-    "seeded sampling, not proof: a clean batch is evidence only (bounds: <= 60 live nodes, <= 200 ops per run, <= 150000 recycles per op)",
+    "seeded sampling, not proof: a clean batch is evidence only (bounds: <= 1300 live nodes, <= 4000 ops per run, <= 150000 recycles per op)",
     "valid-call rule of DESIGN.md 3.1: detach/remove/remove_subtree/payload writes/reads get live ids only; insert entry points and "
     "append_value may also get removed-not-yet-recycled ids; stale ids go to NodeId::is_removed only",
     "reference model (sim/src/model.rs) is trusted as the statement of the documented behaviour; free-slot order, error variant names, "
